@@ -111,7 +111,7 @@ theorem integrate_knots (cfg : Cfg ℚ) (s : Sys ℚ) (target : ℚ) (orc : Orac
     by_cases hc : s.crashed = true
     · simp only [hc, if_true]; exact ⟨[], rfl, rfl⟩
     · rw [if_neg hc]
-      by_cases hat : absC (target - s.tcur) < cfg.eps
+      by_cases hat : absC (target - s.tcur) < cfg.tolEps
       · rw [if_pos hat]; exact ⟨[], rfl, rfl⟩
       · rw [if_neg hat]
         cases hal : allocSteps (target - s.tcur) (initialDt cfg s target) with
@@ -204,7 +204,7 @@ theorem integrateEv_knots (cfg : CfgEv ℚ) (hd : cfg.dense = true) (s : Sys ℚ
   by_cases hc : s.crashed = true
   · simp [hc]
   · rw [if_neg hc]
-    by_cases hat : absC (target - s.tcur) < cfg.loop.eps
+    by_cases hat : absC (target - s.tcur) < cfg.loop.tolEps
     · simp [hat]
     · rw [if_neg hat]
       cases hal : allocSteps (target - s.tcur) (initialDt cfg.loop s target) with
@@ -331,7 +331,7 @@ theorem integrate_knots_bwd (cfg : Cfg ℚ) (s : Sys ℚ) (target : ℚ) (orc : 
     by_cases hc : s.crashed = true
     · simp only [hc, if_true]; exact ⟨[], rfl, ha, rfl⟩
     · rw [if_neg hc]
-      by_cases hat : absC (target - s.tcur) < cfg.eps
+      by_cases hat : absC (target - s.tcur) < cfg.tolEps
       · rw [if_pos hat]; exact ⟨[], rfl, ha, rfl⟩
       · rw [if_neg hat]
         cases hal : allocSteps (target - s.tcur) (initialDt cfg s target) with
@@ -419,7 +419,7 @@ theorem integrateEv_knots_bwd (cfg : CfgEv ℚ) (hd : cfg.dense = true) (s : Sys
   by_cases hc : s.crashed = true
   · simp [hc]
   · rw [if_neg hc]
-    by_cases hat : absC (target - s.tcur) < cfg.loop.eps
+    by_cases hat : absC (target - s.tcur) < cfg.loop.tolEps
     · simp [hat]
     · rw [if_neg hat]
       cases hal : allocSteps (target - s.tcur) (initialDt cfg.loop s target) with
